@@ -256,6 +256,11 @@ def run(ctx):
     check_feed(ctx)
     check_seq(ctx)
     check_order(ctx)
+    ctx.rule("C05-PART", "batches partition the rows exactly once and in order for every n_batches (shared implementation with C16-P / C16-RUN).")
+    from .C16 import check_batch_tasks, check_run_worker
+    from .C07 import _Relabel
+    check_batch_tasks(_Relabel(ctx, {"C16-P": "C05-PART"}))
+    check_run_worker(_Relabel(ctx, {"C16-RUN": "C05-PART"}))
     ctx.rule("C05-ROWS", "the batch readers return the requested rows in the requested order with the requested columns and units (shared with C12-COL): "
                          "a likelihood value is then attributed to the sample it was computed for, whatever the batch layout.")
     from .C12 import _reader_checks
